@@ -157,6 +157,27 @@ META = {
     "C18-thread-freed-after-native-create-on-name-oom": ("C18", "p_uthread_create_full frees the handle when the name copy fails after the native thread was started; needs that allocation to fail"),
     "C19-sleep-eintr-read-from-errno-after-clock-nanosleep": ("C19", "the sleep loop reads errno after clock_nanosleep, which returns the error number instead; needs a handled signal during the sleep"),
     "C20-new-from-fd-closes-callers-descriptor": ("C20", "p_socket_new_from_fd unwinds through p_socket_free, closing the caller's descriptor, which the caller closes again; needs the mode switch to fail and another thread opening a descriptor in between"),
+    # ---- round 8 ----
+    "C01-sync-trylock-add-then-undo": ("C01", "sync spinlock trylock = fetch_add, undone by fetch_sub on failure; needs the holder's plain-store unlock between the two steps (the word goes to -1, or a third thread gets in)"),
+    "C02-general-new-without-zero-fill": ("C02", "general rwlock model: p_rwlock_new allocates with p_malloc; needs a recycled heap block or a non-clearing user allocator, the counters then start with garbage"),
+    "C03-wait-uses-first-bound-mutex": ("C03", "the condition variable remembers the first mutex it was waited with and passes that one to pthread_cond_wait; needs a later wait with a different mutex"),
+    "C04-c11-dec-and-test-last-owner-fast-path": ("C04", "c11 dec_and_test: when the word reads 1 it stores 0 and returns TRUE without a read-modify-write; needs a concurrent atomic update between the load and the store"),
+    "C05-eperm-retry-result-dropped": ("C05", "the EPERM retry of pthread_create discards its result; needs the first create refused with EPERM and the retry succeeding - the handle is freed under the running thread"),
+    "C06-sysv-rmid-skipped-for-id-zero": ("C06", "System V clean-up tests sem_hdl > 0; needs the set with id 0 (first set of an IPC namespace), whose owner's free then skips IPC_RMID"),
+    "C07-fallback-open-may-create": ("C07", "the fallback shm_open after EEXIST passes O_CREAT; needs the owner's free between the follower's two opens - a zero-length segment nobody unlinks"),
+    "C08-opened-lock-semaphore-marked-created": ("C08", "a semaphore handle that only opened an existing name is marked created; needs a second handle of the segment closed while a third is opened later - two lock semaphores for one segment"),
+    "C09-set-blocking-cast-instead-of-normalise": ("C09", "set_blocking stores (puint) blocking into a 1-bit field; needs an even non-zero true value"),
+    "C10-ealready-reported-connected": ("C10", "EALREADY classified CONNECTED; needs a second p_socket_connect while the first is still pending"),
+    "C11-reset-skipped-on-open-context": ("C11", "p_crypto_hash_reset returns early unless the hash is closed; needs update, reset, update without a read in between"),
+    "C12-avl-replace-resets-balance-factor": ("C12", "AVL insert's replace path shares the tail that stores balance_factor = 0; needs a replace on a leaning node, then removals that rotate by the stale factor"),
+    "C13-rb-remove-red-parent-shortcut": ("C13", "RB remove recolours parent and sibling itself when the removed black leaf has a red parent, without looking at the sibling's children; needs a sibling with a red child"),
+    "C14-avl-remove-notifies-before-unlink": ("C14", "AVL remove calls the notifiers before re-balancing and unlinking; needs a notifier that looks into the same tree"),
+    "C15-listing-countdown-skips-bucket-zero": ("C15", "keys()/values() walk the buckets with `for (i = size - 1; i > 0; --i)`; needs a key in bucket 0"),
+    "C16-header-test-reads-before-empty-line": ("C16", "the header test no longer checks dst_line[0] first: dst_line[strlen - 1] reads in front of the block for an empty line; needs a blank line and a bounds observer"),
+    "C17-is-any-swaps-sixteen-bits": ("C17", "is_any converts the address with p_ntohs; needs an address 0.0.x.y"),
+    "C18-map-size-set-after-create-leaks-mapping": ("C18", "map_size stored after the create helper returned; needs the lock semaphore's allocation to fail after mmap - munmap (addr, 0) fails and the mapping stays"),
+    "C19-sleep-abstime-keeps-relative-remainder": ("C19", "clock_nanosleep with TIMER_ABSTIME while the EINTR path still copies the (never written) remainder into the request; needs a handled signal during the sleep"),
+    "C20-semaphore-new-frees-object-only-on-open-failure": ("C20", "p_semaphore_new releases only the object when the create helper fails; needs sem_open to fail (EACCES, EMFILE) - the platform key string leaks"),
 }
 
 
